@@ -16,6 +16,7 @@ STRINGS = ['""', '"a"', '"a b"', '"\\n"', '"\\t\\r\\\\"', '"\\""', '"\\\'"', '"\
 PUNCT = [":", ";", "{", "}", "[", "]", "(", ")", "/", "=", "\\", "'", ".", "+", "-", "*", ",", "@", "#", "$", "%", "&", "!", "?", "<", ">", "|", "~", "`", "^", '"']
 SPACE = [" ", "\t", "\n", "\r", "\r\n", "\n\n", "    ", "\f", "\v", "\x00", "\ufeff", "\u00a0", "\u2028"]
 IDENTS = ["A", "a", "_", "__", "Color", "x", "Packet", "Type", "packet_t", "a.b", "a.b.c", "base.Color", "self", "None", "int", "uint", "uintx", "true1", "é", "名前", "Proto", "c.name_prefix", "max_bytes"]
+ODD_NAMES = ["_", "__", "___", "_x", "x_", "_X_", "_3d", "_3d_point", "X9", "x9y", "ALLCAPS", "ALL_CAPS_", "lower", "camelCase", "PascalCase", "snake_case", "HTTP_Frame_", "a1b2", "A", "a", "I", "l", "O0", "Type", "Message", "Enum", "String", "Error", "main", "self", "cls", "this", "len", "id", "str", "list", "dict", "object", "None_", "NULL", "bool_", "int_", "uint", "int", "float", "double", "char", "void", "long", "short", "signed", "unsigned", "const_", "static", "struct", "union", "enum_", "typedef_", "return", "goto", "if", "else", "for", "while", "switch", "case", "default", "break", "func", "go", "chan", "map", "range", "package", "var", "interface", "class", "def", "from", "lambda", "pass", "global", "with", "as", "is", "in", "not", "and", "or", "async", "await", "bp", "s", "m", "ctx", "data", "di", "fds", "descriptor", "json", "field", "dataclass", "List", "Dict", "Union", "ClassVar", "IntEnum", "unique", "BYTES_LENGTH", "Encode", "Decode", "Size", "x" * 120]
 COMMENTS = ["// c", "//", "// \t", "/* c */", "# c", "///", "// é"]
 VOCAB = KEYWORDS + TYPES + NUMBERS + BOOLS + STRINGS + PUNCT + SPACE + IDENTS + COMMENTS
 
@@ -136,6 +137,14 @@ TEMPLATES = [
     "import \"cyc_a.bitproto\"",
     "import \"loop_link.bitproto\"",
     "import \"@SELF@\"",
+    "import \"./@SELF@\"",
+    "import \"sub/../@SELF@\"",
+    "import me \"../@DIR@/@SELF@\"",
+    "import \"cyc_c.bitproto\"",
+    "import \"./cyc_d.bitproto\"",
+    "import \"self_dot.bitproto\"",
+    "import \"sub/../self_updown.bitproto\"",
+    "import \"sub/up.bitproto\"",
     "import x \"x.bitproto\"\nmessage UsesX {\n    x.XM m = 1\n    x.XE e = 2\n    x.XT t = 3\n}\nconst FROMX = x.XC",
     "import \"x.bitproto\"\nmessage UsesX2 {\n    x.XM[2] m = 1\n    x.Nope n = 2\n}",
     "import \"x.bitproto\"\nmessage x {}",
@@ -190,6 +199,11 @@ HELPER_FILES = {
     "cyc_a.bitproto": "proto cyc_a\n\nimport \"cyc_b.bitproto\"\n",
     "cyc_b.bitproto": "proto cyc_b\n\nimport \"cyc_a.bitproto\"\n",
     "sub/z.bitproto": "proto z\n\nimport \"../x.bitproto\"\n\nmessage ZM {\n    x.XE e = 1\n}\n",
+    "cyc_c.bitproto": "proto cyc_c\n\nimport \"./cyc_d.bitproto\"\n",
+    "cyc_d.bitproto": "proto cyc_d\n\nimport \"sub/../cyc_c.bitproto\"\n",
+    "self_dot.bitproto": "proto self_dot\n\nimport \"./self_dot.bitproto\"\n",
+    "self_updown.bitproto": "proto self_updown\n\nimport \"sub/../self_updown.bitproto\"\n",
+    "sub/up.bitproto": "proto up\n\nimport \"../sub/up.bitproto\"\n",
 }
 
 
@@ -229,6 +243,7 @@ def mutate_once(rng, text: str, idents=None) -> str:
             ("str_new", 3),
             ("ident_case", 3),
             ("dotted", 6),
+            ("rename_all", 8),
         ]
     )
     sig = [i for i, t in enumerate(toks) if not t.isspace()] or list(range(len(toks)))
@@ -320,6 +335,14 @@ def mutate_once(rng, text: str, idents=None) -> str:
         where = rng.below(len(lines) + 1)
         lines.insert(where, 'const %s = "%s"' % (name, body))
         return "\n".join(lines)
+    if kind == "rename_all":
+        # consistent renaming keeps the schema acceptable while giving a definition an odd name
+        ids = sorted({t for t in toks if re.match(r"[A-Za-z_]\w*$", t) and t not in KEYWORDS and not re.match(r"(u?int\d+|bool|byte|true|false|yes|no)$", t)})
+        if ids:
+            old = rng.choice(ids)
+            new = rng.choice(ODD_NAMES)
+            if new not in ids:
+                return "".join(new if t == old else t for t in toks)
     if kind == "dotted":
         # turn a simple reference into a dotted one (through whatever that name denotes)
         ids = [i for i, t in enumerate(toks) if re.match(r"[A-Za-z_]\w*$", t) and t not in KEYWORDS]
